@@ -163,9 +163,10 @@ fn fen_ep_case<const N: usize>() -> bool {
     let rights = nd::u8() & 0xF0;
     let white = nd::bool();
     let st0 = super::super::gamestate::verif_gamestate::mk(rights | 8);
+    let board = mk::sym_board();
     #[cfg(not(kani))]
     eprintln!("e.p. field: {:?}  side to move white: {}  rights {:#x}", str_of(&b), white, rights);
-    let r = Game::verif_fen_ep(str_of(&b), st0, mk::player(white));
+    let r = Game::verif_fen_ep(str_of(&b), st0, mk::player(white), board);
     let res = match &r { Ok(s) => Some(super::super::gamestate::verif_gamestate::bits(*s)), Err(_) => None };
     core::mem::forget(r);
     let dash = N == 1 && b[0] == b'-';
@@ -174,7 +175,16 @@ fn fen_ep_case<const N: usize>() -> bool {
         Some(bits) => {
             assert!(dash || square, "C17: malformed en-passant field accepted");
             assert!(bits & 0xF0 == rights, "C17: en-passant field altered the castling rights");
-            assert!(bits & 15 == (if dash { 8 } else { b[0] - b'a' }), "C17: en-passant file differs from the field");
+            if dash { assert!(bits & 15 == 8, "C17: `-` does not mean `no en-passant file`"); }
+            else {
+                // the file is kept as written (FIDE style), or -- if the reader normalises -- dropped ONLY when no pawn
+                // of the side to move stands beside the pushed pawn (then no capture exists and the position is the same)
+                let file = (b[0] - b'a') as usize;
+                let row = if white { 4 } else { 3 };
+                let own_pawn = Some(Piece { piece_type: PieceType::Pawn, owner: mk::player(white) });
+                let capturable = (file > 0 && board[row * 8 + file - 1] == own_pawn) || (file < 7 && board[row * 8 + file + 1] == own_pawn);
+                assert!(bits & 15 == file as u8 || (bits & 15 == 8 && !capturable), "C17: en-passant file differs from the field (an available en-passant capture is lost or shifted)");
+            }
         }
         None => assert!(!(dash || square), "C17: well-formed en-passant field rejected"),
     }
